@@ -59,6 +59,10 @@ def corpus(scratch, rnd):
     slots = {i: bytes(mkdisc.surface_dfs(800, 30 + i, title=b"SLOT%d" % i, entries=files(800))) for i in (0, 1, 2)}
     p = mkdisc.write(os.path.join(scratch, "m.mmb"), mkdisc.container_mmb(slots))
     items.append(("mmb", p, [["cat", "0"], ["cat", "2"], ["cat", "6"], ["type", "--binary", ":4.$.A"], ["show-titles", "0", "2", "4"]]))
+    # the largest container there is: all 511 slots (8192 + 511 * 204800 bytes), first and last slot formatted
+    slots = {i: bytes(mkdisc.surface_dfs(800, 33, title=b"SLOT%d" % i, entries=files(800))) for i in (0, 510)}
+    p = mkdisc.write(os.path.join(scratch, "full.mmb"), mkdisc.container_mmb(slots, nslots_physical=511))
+    items.append(("mmb-full", p, [["cat", "0"], ["cat", "1020"], ["type", "--binary", ":1020.$.A"], ["dump-sector", "1020", "79", "9"]]))
     # flux
     img = mkdisc.surface_dfs(400, 41, title=b"GZFLUX", entries=files(400))
     p = mkflux.image_to_flux(bytes(img), 40, 10, "FM", "hfe", os.path.join(scratch, "f.hfe"))
@@ -94,6 +98,14 @@ def corpus(scratch, rnd):
         items.append(("tiny-%d" % nsec, p, [["cat"], ["free"], ["sector-map"]]))
     p = mkdisc.write(os.path.join(scratch, "odd.ssd"), bytes(img) + b"x" * 100)
     items.append(("odd-size", p, [["cat"], ["dump-sector", "0", "39", "9"]]))
+    # Gzip.tla RReadBack: an image trimmed inside a sector (e.g. to the end of its last file): the partial last sector, the
+    # last whole one and the first one beyond, read through a file and directly
+    for r in (1, 80, 255):
+        d = discs.build("DFS", [E("LAST", length=600, start=5), E("FIRST", length=300, start=2)], scratch, "trim%d" % r, nsectors=400, salt=45, title=b"TRIM%d" % r)
+        data = open(d.path, "rb").read()
+        open(d.path, "wb").write(data[: 7 * 256 + r])        # LAST occupies sectors 5, 6 and 7
+        items.append(("trimmed-%d" % r, d.path, [["cat"], ["type", "--binary", "LAST"], ["dump", "LAST"], ["type", "--binary", "FIRST"], ["dump-sector", "0", "0", "6"],
+                                                  ["dump-sector", "0", "0", "7"], ["dump-sector", "0", "0", "8"], ["free"], ["sector-map"]]))
     return items
 
 
@@ -122,6 +134,9 @@ def run(chk, tier, seed):
         for tag, path, cmds in items:
             data = open(path, "rb").read()
             variants = [("l6", gz_bytes(data, 6))]
+            if tag == "mmb-full":
+                jobs.append((tag, path, cmds, "l6", variants[0][1]))
+                continue
             if not quick or tag.startswith(("hint", "dfs-400", "mmb", "hfe", "dsd-in")):
                 variants += [("l0", gz_bytes(data, 0)), ("l9", gz_bytes(data, 9)), ("l1-name", gz_bytes(data, 1, fname=b"original-name"))]
             # compressed size modulo the 512-byte input buffer: pad the FNAME field
